@@ -273,7 +273,7 @@ class PercentFormatString:
         needs_mapping = self.needs_mapping()
         for cs in self.specifiers:
             yield from cs.lint()
-            if needs_mapping:
+            if needs_mapping and cs.conversion_type != "%":
                 if (
                     cs.mapping_key is None
                     or cs.precision == "*"
